@@ -436,16 +436,52 @@ fn run_batch(engine: &Path, pairs: &[Pair]) -> Result<Value, (String, String)> {
         let kind = if generated { "generated-code" } else { "infra" };
         return Err((kind.to_string(), err));
     }
-    let run = Command::new(engine.join("target/release/ctbatch")).env("RUST_BACKTRACE", "0").output().map_err(|e| ("infra".to_string(), e.to_string()))?;
-    let txt = String::from_utf8_lossy(&run.stdout);
-    for l in txt.lines().rev() {
-        if let Some(j) = l.strip_prefix("CTBATCH ") {
-            return serde_json::from_str(j).map_err(|e| ("infra".to_string(), e.to_string()));
+    // The binary is run three times: the first use of every generated module by eight threads
+    // at once (C15) happens once per process. The report of the first run counts; mismatches of
+    // the later runs are added to it.
+    let mut first: Option<Value> = None;
+    let mut last_fail = (String::new(), String::new(), String::new());
+    for _ in 0..3 {
+        let run = Command::new(engine.join("target/release/ctbatch")).env("RUST_BACKTRACE", "0").output().map_err(|e| ("infra".to_string(), e.to_string()))?;
+        let txt = String::from_utf8_lossy(&run.stdout).to_string();
+        let mut rep: Option<Value> = None;
+        for l in txt.lines().rev() {
+            if let Some(j) = l.strip_prefix("CTBATCH ") {
+                rep = Some(serde_json::from_str(j).map_err(|e| ("infra".to_string(), e.to_string()))?);
+                break;
+            }
+        }
+        match (rep, &mut first) {
+            (Some(r), None) => first = Some(r),
+            (Some(r), Some(f)) => {
+                let more = r["mismatches"].as_array().cloned().unwrap_or_default();
+                if let Some(a) = f["mismatches"].as_array_mut() {
+                    for m in more {
+                        if !a.contains(&m) {
+                            a.push(m);
+                        }
+                    }
+                }
+                if let Some(n) = f["process_runs"].as_u64() {
+                    f["process_runs"] = json!(n + 1);
+                } else {
+                    f["process_runs"] = json!(2);
+                }
+            }
+            (None, _) => {
+                last_fail = (format!("{:?}", run.status), txt.chars().take(2000).collect(), String::from_utf8_lossy(&run.stderr).chars().take(3000).collect());
+                first = None;
+                break;
+            }
         }
     }
+    if let Some(f) = first {
+        return Ok(f);
+    }
+    let (status, txt, stderr) = last_fail;
     Err((
         "batch-binary".to_string(),
-        format!("status {:?}\nstdout {}\nstderr {}", run.status, txt.chars().take(2000).collect::<String>(), String::from_utf8_lossy(&run.stderr).chars().take(3000).collect::<String>()),
+        format!("status {status}\nstdout {txt}\nstderr {stderr}"),
     ))
 }
 
@@ -558,7 +594,7 @@ pub fn custom_run(cfg: &RunCfg) -> i32 {
             "disagreements_checked": comparisons,
             "evaluations": comparisons,
             "distinct_nontrivial": nontrivial.len(),
-            "rule": "Pairs (grammar, lexer) whose token names agree: AG from strata rand/expr/lr1/repo (cycle-free, loop-free tables, random precedence and %avoid_insert), kinds Grmtools and Original(UserAction) (user actions from a fixed template recording production, $span, every $i as Ok/Err lexeme or child string, $lexer and $$; %parse-param absent / a u64 by value / a shared RefCell log every action appends to / a reference behind %parse-generics; with the log, some Grmtools rules have the unit action type so that their actions are visible only in the log; every third action body spans two lines), Original(GenericParseTree), Original(NoAction); settings sampled: yacckind through builder or %grmtools header, recoverer CPCT+/None through builder and/or header, serialisation format, Rust edition, visibility, lexer flags through builder or header; 7 inputs per pair (sentences, near misses, upper-cased words, multi-line skip text, a lexing error). One cargo build of engine/ctbatch runs the real CTLexerBuilder/CTParserBuilder per pair in its build script; its binary lexes and parses every input with the generated modules and with LRNonStreamingLexerDef/RTParserBuilder built from the same source strings (user actions evaluated natively) and compares lexemes, value/tree, errors with repair sets, token_epp, R_*/N_* constants; each module's first parse is also made by 8 barrier-released threads (C15). programs = pairs compiled and run; disagreements_checked = comparisons. Besides the pairs, 60 (thorough: 80 per batch) lexer-only items: a specification from the lexer generators of C09/C11 (start states with push/pop/replace targets, <..> prefixes, every kind of escape, flags in a %grmtools section, through the builder's flag methods (no section), or both with the builder overriding the section - one third each -, varied rendering) built by CTLexerBuilder with a user-supplied rule_ids_map; the generated module's definition (rules: id, name, expression, start states, target; start states) and its lexemes on 6 inputs sampled from the rules must equal those of LRNonStreamingLexerDef::from_str + set_rule_ids on the same text, and one side refusing what the other accepts is a mismatch. Non-trivial pair: non-default setting or an input with a lexing error, or a lexer-only item; distinct by hash(sources).",
+            "rule": "Pairs (grammar, lexer) whose token names agree: AG from strata rand/expr/lr1/repo (cycle-free, loop-free tables, random precedence and %avoid_insert), kinds Grmtools and Original(UserAction) (user actions from a fixed template recording production, $span, every $i as Ok/Err lexeme or child string, $lexer and $$; %parse-param absent / a u64 by value / a shared RefCell log every action appends to / a reference behind %parse-generics; with the log, some Grmtools rules have the unit action type so that their actions are visible only in the log; every third action body spans two lines), Original(GenericParseTree), Original(NoAction); settings sampled: yacckind through builder or %grmtools header, recoverer CPCT+/None through builder and/or header, serialisation format, Rust edition, visibility, lexer flags through builder or header; 7 inputs per pair (sentences, near misses, upper-cased words, multi-line skip text, a lexing error). One cargo build of engine/ctbatch runs the real CTLexerBuilder/CTParserBuilder per pair in its build script; its binary lexes and parses every input with the generated modules and with LRNonStreamingLexerDef/RTParserBuilder built from the same source strings (user actions evaluated natively) and compares lexemes, value/tree, errors with repair sets, token_epp, R_*/N_* constants; each module's first parse is also made by 8 barrier-released threads (C15), and the binary is run in three processes (one first-use race per module and process). programs = pairs compiled and run; disagreements_checked = comparisons. Besides the pairs, 60 (thorough: 80 per batch) lexer-only items: a specification from the lexer generators of C09/C11 (start states with push/pop/replace targets, <..> prefixes, every kind of escape, flags in a %grmtools section, through the builder's flag methods (no section), or both with the builder overriding the section - one third each -, varied rendering) built by CTLexerBuilder with a user-supplied rule_ids_map; the generated module's definition (rules: id, name, expression, start states, target; start states) and its lexemes on 6 inputs sampled from the rules must equal those of LRNonStreamingLexerDef::from_str + set_rule_ids on the same text, and one side refusing what the other accepts is a mismatch. Non-trivial pair: non-default setting or an input with a lexing error, or a lexer-only item; distinct by hash(sources).",
             "samples": samples,
             "classes": classes,
             "replayed": replay_pairs.len(),
